@@ -165,6 +165,31 @@ def extra_classes():
                     if with_arr:
                         s.g = 0
             mk(f"dict {kf}/{vf} arr={with_arr}", ns(), upd)
+    # helper calls while r0 holds the pointer to a looked-up Dict value that is used afterwards (every helper
+    # clobbers r0..r5: the generator has to save what is still needed)
+    for vf in ("I", "q", "H"):
+        K = type("K", (Structure,), dict(a=Member("I")))
+        V = type("V", (Structure,), dict(b=Member(vf), c=Member(vf)))
+
+        def ns(K=K, V=V):
+            m = ArrayMap()
+            return dict(table=Dict(K, V), m=m, g=m.globalVar("Q"))
+        for hname, helper in (("prandom", lambda s: prandom(s) & 0xffff), ("ktime", lambda s: ktime(s) >> 20)):
+            def body(s, helper=helper):
+                s.table.key.a = 3
+                with s.table.lookup() as (v, Else):
+                    v.b = helper(s)
+                    v.c = v.b + 1
+                with Else:
+                    s.g = helper(s)
+
+            def body2(s, helper=helper):
+                s.table.key.a = 3
+                with s.table.lookup() as (v, Else):
+                    s.g = helper(s)
+                    v.c = v.c + 1
+            mk(f"dict {vf}: {hname} inside a lookup block, value member assigned", ns(), body)
+            mk(f"dict {vf}: {hname} inside a lookup block, value used afterwards", ns(), body2)
     for f in "IQq":
         def ns(f=f):
             m = ArrayMap()
